@@ -55,8 +55,13 @@ def b_isinstance(ex, x, t):
         return mk_bool(z3.Or(*gs)) if gs else False
     for c in ts:
         n = c.name if isinstance(c, (Builtin, ExcClass)) else (c.info.name if isinstance(c, ClassVal) else None)
+        if n is None and isinstance(c, ExtModule):
+            n = c.name.split('.')[-1]
         if n is None:
             raise Unsupported(f'isinstance against {c!r}')
+        from .abstract import App
+        if isinstance(x, App) and x.ty == n:
+            return True
         if n == 'int' and (isinstance(x, int) or (isinstance(x, Sym) and x.ty in ('int', 'bool'))):
             return True
         if n == 'float' and (isinstance(x, float) or (isinstance(x, Sym) and x.ty == 'float')):
@@ -497,13 +502,45 @@ BYTES_METHODS = {'hex': m_bytes_hex, 'find': m_bytes_find, 'extend': m_bytes_ext
 def m_int_to_bytes(ex, x, length=1, byteorder='big', **kw):
     length = ex.concretize(length)
     if isinstance(length, Sym):
-        raise Unsupported('to_bytes with symbolic length')
+        return to_bytes_symlen(ex, x, length, byteorder)
     if kw.get('signed'):
         raise Unsupported('to_bytes signed')
     if length < 0:
         raise PyRaise(make_exc('ValueError', 'length argument must be non-negative'))
     r = to_bytes(x, length, byteorder)
     return r.to_bytes() if r.concrete() else r
+
+
+class VarLenBytes:
+    """Result of int.to_bytes with a symbolic length: only the source integer and the length are known."""
+    def __init__(self, x, length, order):
+        self.src = (x, length, order)
+        self.mutable = False
+
+    def __repr__(self):
+        return f'to_bytes({self.src[0]!r}, {self.src[1]!r})'
+
+
+def to_bytes_symlen(ex, x, length, order):
+    lt = int_term(length)
+    neg = mk_bool(lt < 0)
+    if neg is True or (neg is not False and ex.truth(neg)):
+        raise PyRaise(make_exc('ValueError', 'length argument must be non-negative'))
+    p = V.POW2(8 * lt)
+    ex.assume(p >= 1)
+    bl = ex.ghost.get(('bit_length_of', id(x)))
+    if bl is not None:
+        # monotonicity instance of 2**k (a fact about the uninterpreted pow2)
+        ex.assume(z3.Implies(bl.t <= 8 * lt, V.POW2(bl.t) <= p))
+    over = mk_bool(z3.Or(int_term(x) < 0, int_term(x) >= p))
+    if over is True:
+        raise PyRaise(make_exc('OverflowError', 'int too big to convert'))
+    if over is not False:
+        if ex.merge:
+            ex.collect_raise('OverflowError', over, 'to_bytes')
+        elif ex.truth(over):
+            raise PyRaise(make_exc('OverflowError', 'int too big to convert'))
+    return VarLenBytes(x, length, order)
 
 
 def m_int_bit_length(ex, x):
